@@ -20,6 +20,7 @@ sys.path.insert(0, os.path.join(VERIF, "pylib"))
 import build as _build  # noqa: E402
 
 NPROC = int(os.environ.get("VERIF_JOBS", "16"))
+MAX_HANGS_PER_BATCH = 6
 
 
 def seed_from_env():
@@ -467,6 +468,18 @@ def _run_cases(binary, cases, workdir, timeout=300, watchdog=60, halt=False,
         k = ids.index(cur.case_id)
         todo = todo[k + 1:]
         if attempt > len(cases) + 5:
+            break
+        nhang = sum(1 for r in results.values() if r.status == "timeout")
+        if nhang >= MAX_HANGS_PER_BATCH and todo:
+            # the tree under test hangs on input after input: the verdict is
+            # in, every further watchdog period only delays it.  The rest of
+            # the batch is not run (status "skipped": not judged, not a
+            # harness error).
+            for cid, _ in todo:
+                r = CaseResult(cid)
+                r.status = "skipped"
+                r.detail = "batch cut short after %d hangs" % nhang
+                results[cid] = r
             break
     for cid, _ in cases:
         if cid not in results:
